@@ -88,6 +88,12 @@ def cases(tier):
             out.append({"kind": "poly2", "poly": [list(p) for p in c], "pl": PL3[(i + 3 * j) % 8], "name": nm})
     for n in range(3, 13):
         out.append({"kind": "ngon", "n": n, "pl": PL3[n % 8]})
+    # plain Polygons whose vertices run CLOCKWISE about an explicitly given normal (negative signed area): the balls are
+    # the same sets
+    for i, (nm, c) in enumerate(special.items()):
+        out.append({"kind": "poly2", "poly": [list(p) for p in c], "pl": PL3[(i + 5) % 8], "name": nm, "negnormal": True})
+    for n in (3, 4, 5, 8):
+        out.append({"kind": "ngon", "n": n, "pl": PL3[(n + 3) % 8], "negnormal": True})
     for ia, a in enumerate(A.AXES):
         for k in range(2):
             out.append({"kind": "curved", "cls": "Circle", "axes": [a], "centre": (ia + k) % 4})
@@ -247,6 +253,10 @@ def run_vertex_based(case):
                     lattice = [tuple(int(round(x * 100)) for x in p) for p in base]  # farbox: exact structure from the unplaced box
                 faces = [list(ext) for _, _, _, ext in X.hull_facets(lattice)]
                 obj = S.Polyhedron(F.copy(), [np.array(f) for f in faces], faces_are_convex=True)
+        elif case.get("negnormal"):
+            cls = "Polygon"
+            nd = np.cross(F[2] - F[1], F[0] - F[1])
+            obj = S.Polygon(F.copy(), normal=-nd)
         else:
             obj = getattr(S, cls)(F.copy())
     except Exception as ex:
